@@ -279,6 +279,11 @@ def run_reshape_representation(ctx):
                 ctx.disagree('Rs.reshape: outcome (tensor / RuntimeError / AssertionError)', case, out, rep[:120])
             continue
         toks = rep.split()[1:]
+        # last field: `Rs.resolved`, the decidable side condition of the theorem C06e.reshape_dense (soundness: C06f.resolved_sound)
+        ctx.count('reshape-representation.theorem-applies' if toks[-1] == 'T' else 'reshape-representation.fuel-exhausted')
+        if toks[-1] != 'T':
+            ctx.disagree('Rs.reshape: the job is outside the hypothesis Resolved of C06e.reshape_dense (the fuel of the model was exhausted)', case, 'T', toks[-1])
+        toks = toks[:-1]
         i = 0; L = int(toks[i]); phys = toks[i + 1:i + 1 + L]; i += 1 + L
         P = int(toks[i]); pax = toks[i + 1:i + 1 + 2 * P]; i += 1 + 2 * P
         mp = [str(L)] + phys + [str(P)] + sum((['P', pax[2 * j], pax[2 * j + 1]] for j in range(P)), []) + toks[i:-1]
